@@ -298,6 +298,14 @@ fn observe_once(case: &Value, dir: Option<std::path::PathBuf>) -> Observation {
         if delivery == "file" {
             it.program_directory = dir.clone();
         }
+        // what the declaration adds: compared with the environment as it was before
+        let mut before: BTreeMap<String, String> = BTreeMap::new();
+        {
+            let mut defs = it.env.iter_local_definitions();
+            for (k, v) in &mut *defs {
+                before.insert(k.clone(), obs_of_value(v).short());
+            }
+        }
         match it.eval(decl.chars()) {
             Ok(_) => {}
             Err(e) => return Err(format!("import failed: {:?}", kind_of_error(&e))),
@@ -306,7 +314,10 @@ fn observe_once(case: &Value, dir: Option<std::path::PathBuf>) -> Observation {
         {
             let mut defs = it.env.iter_local_definitions();
             for (k, v) in &mut *defs {
-                out.push((k.clone(), obs_of_value(v).short()));
+                let o = obs_of_value(v).short();
+                if before.get(k) != Some(&o) {
+                    out.push((k.clone(), o));
+                }
             }
         }
         out.sort();
